@@ -14,7 +14,8 @@ DRIVER_ROOTS = ["Driver/Env.lean"]
 GENERATED = ["Env", "Config"]
 RULE = ("cases = (nested settings tree with underscore-/case-bearing keys so that distinct paths collide at every depth, "
         "all leaf types incl. list/tuple/float/None/empty sections, environment with relevant / irrelevant / badly typed / "
-        "empty / unprefixed / lower-case / section-naming variables, prefix default or custom via a Config subclass); "
+        "empty / unprefixed / lower-case / section-naming variables, prefix default or custom via a Config subclass - plain or made of regex metacharacters (. + * ? ( ) [ ] | ^ $ \\ { }), with "
+        "near-miss variables that match such a prefix as a pattern but not literally); "
         "each is run through the real Config(...).load_shell_env() under a replaced os.environ; non-trivial = at least "
         "one variable of the environment names an existing setting or two settings collide; distinct = distinct "
         "(tree, environment, prefix) triples; plus HISTORIES on one Config object: 2-4 load_shell_env() calls under changing "
@@ -101,6 +102,38 @@ def plant_dotted(rng, t):
                 where[k] = rng.choice([{"x1": 1}, {}] + [x for x in LEAVES if type(x) is not type(other)])
 
 
+# the prefix is a literal string, whatever characters it is made of
+META_PREFIXES = ["my.app", "c++", "a*", "x?", "(p)", "[ab]", "a|b", "^p", "p$", "b\\w", "p.", ".*", "a{2}", "q+"]
+META = set(".+*?()[]|^$\\{}")
+
+
+def choose_prefix(rng, plain):
+    return rng.choice(META_PREFIXES) if rng.random() < 0.25 else rng.choice(plain)
+
+
+def near_misses(rng, P, name):
+    """variable names that are NOT `P + name` literally but would be if P were read as a pattern"""
+    out = set()
+    for i, ch in enumerate(P):
+        if ch in META:
+            out.add(P[:i] + "X" + P[i + 1:] + name)          # `.` as any character
+            out.add(P[:i] + P[i + 1:] + name)                 # the metacharacter dropped: `(p)` -> p, `^p` -> p, `x?` -> x
+            if i:
+                out.add(P[:i - 1] + P[i + 1:] + name)         # the repeated item absent: `a*` / `x?`
+                out.add(P[:i] + P[i - 1] * 2 + P[i + 1:] + name)  # the repeated item thrice: `q+`, `a*`
+    stripped = "".join(c for c in P if c not in META)
+    out.add(stripped + name)
+    if "[" in P and "]" in P:
+        inner = P[P.index("[") + 1:P.index("]")]
+        for c in inner:
+            out.add(P[:P.index("[")] + c + P[P.index("]") + 1:] + name)
+    if "\\" in P:
+        out.add(P.replace("\\W", "-").replace("\\w", "-") + name)
+    out.discard(P + name)
+    out = sorted(x for x in out if x and "=" not in x and "\0" not in x)
+    return rng.sample(out, min(len(out), rng.choice([1, 2, 3])))
+
+
 def gen_case(rng):
     t = gen_tree(rng)
     if rng.random() < 0.08:
@@ -108,11 +141,14 @@ def gen_case(rng):
     if rng.random() < 0.12:
         plant_dotted(rng, t)
     lv = list(leaves(t))
-    pre = rng.choice(["invoke", "invoke", "myapp", "my_app", "x"])
+    pre = choose_prefix(rng, ["invoke", "invoke", "myapp", "my_app", "x"])
     how = "default" if pre == "invoke" else rng.choice(["prefix", "env_prefix"])
     P = pre.upper() + "_"
     env = {}
     for p, v in lv:
+        if any(c in META for c in P) and rng.random() < 0.5:
+            for nm in near_misses(rng, P, var_of(p)):
+                env[nm] = rng.choice(["near", "1", "0", "9"])  # reads like the prefix as a pattern; names nothing
         r = rng.random()
         if r < 0.5:
             numeric = isinstance(v, (int, float)) and not isinstance(v, bool)
@@ -433,6 +469,11 @@ def gen_environ(rng, P, view, prev):
         if prev is not None and not any((P + var_of(p)) in env for p, _ in lv) and lv:
             p, v = rng.choice(lv)
             env[P + var_of(p)] = "1"
+    if any(c in META for c in P):
+        for p, _ in lv:
+            if rng.random() < 0.3:
+                for nm in near_misses(rng, P, var_of(p)):
+                    env[nm] = "near"
     if rng.random() < 0.6:
         env[P + "NOT_A_SETTING"] = "1"
     if rng.random() < 0.3:
@@ -447,7 +488,7 @@ def gen_history(rng):
             continue  # mostly collision-free vocabularies, so that histories get past the first load
         if list(leaves(master)):
             break
-    pre = rng.choice(["invoke", "invoke", "myapp", "my_app"])
+    pre = choose_prefix(rng, ["invoke", "invoke", "myapp", "my_app"])
     how = "default" if pre == "invoke" else rng.choice(["prefix", "env_prefix"])
     P = pre.upper() + "_"
     levels = {"defaults": variant(rng, master, 0.8), "collection": {}, "overrides": {}, "modifications": {}}
@@ -666,6 +707,9 @@ def run(ctx):
         out.case(c, nontrivial=(applied > 0 or kind == "ambiguous"))
         out.hist["kind:" + kind] += 1
         out.hist["prefix:" + c.get("how", "default")] += 1
+        if any(ch in META for ch in P):
+            out.hist["prefix_with_metacharacter"] += 1
+            out.hist["prefix_meta_near_miss_vars:%d" % min(3, sum(1 for k, v in c["env"].items() if v in ("near",) or (not k.startswith(P) and v in ("1", "0", "9") and k.endswith(tuple(var_of(p) for p, _ in leaves(before)) or ("\0",)))))] += 1
         dotted = [p for p, _ in leaves(before) if any("." in k for k in p)] + [p for p in sections(before) if any("." in k for k in p)]
         out.hist["dotted_keys:%d" % min(len(dotted), 2)] += 1
         if dotted:
